@@ -65,6 +65,15 @@ def make_generator(case, shadow=False, energy=None):
     E = 10.0 ** case.get("log10E", 9.0) if energy is None else energy
     kw = dict(shadow=shadow, flavor_ratio=tuple(case.get("ratio", (1, 1, 1))), source=case.get("source", "cosmogenic"), interaction_model=model)
     d = case["dims"]
+    if case.get("salt", 1) % 3 == 0:
+        # the volume is re-declared after construction (its dimensions are plain public attributes): everything must follow
+        if case["shape"] == "cyl":
+            g_ = pg.CylindricalGenerator(d[0] * 1.7, d[2] * 0.6, E, **kw)
+            g_.dr, g_.dz = d[0], d[2]
+        else:
+            g_ = pg.RectangularGenerator(d[0] * 1.7, d[1] * 0.6, d[2] * 1.3, E, **kw)
+            g_.dx, g_.dy, g_.dz = d[0], d[1], d[2]
+        return g_
     if case["shape"] == "cyl":
         return pg.CylindricalGenerator(d[0], d[2], E, **kw)
     return pg.RectangularGenerator(d[0], d[1], d[2], E, **kw)
